@@ -51,55 +51,6 @@ Theorem C10_quiescent : forall h,
 Proof. exact quiescent_run. Qed.
 Print Assumptions C10_quiescent.
 
-(* ---- defect 1: the LEAF flag set automatically for size < 8 survives GC:reregister ---- *)
-(* full statement [leaf_flag_sound_full]: in every reachable state an item carries LEAF only if
-   the user declared it pointer-free or it is smaller than a pointer.  It is false: *)
-Theorem C10_leaf_flag_sound_refuted : ~ leaf_flag_sound_full.
-Proof. exact leaf_flag_sound_refuted. Qed.
-Print Assumptions C10_leaf_flag_sound_refuted.
-
-(* full statement [reachable_kept_full]: a collection keeps every block reachable through blocks
-   that can hold pointers and were not declared pointer-free.  False on the unchanged code
-   (witness: alloc(4); realloc(64); store a pointer; collect): *)
-Theorem C10_reachable_kept_refuted : ~ reachable_kept_full.
-Proof. exact reachable_kept_refuted. Qed.
-Print Assumptions C10_reachable_kept_refuted.
-
-(* strongest true restriction: whenever the LEAF flags of the current state are sound, the
-   collection keeps every truly reachable block untouched, unfreed and unfinalized *)
-Theorem C10_reachable_kept_partial : forall h stk a it,
-  leaf_ok (run h gc_init) ->
-  treach (items (run h gc_init)) (mark_seeds stk (run h gc_init)) a ->
-  lookup a (items (run h gc_init)) = Some it ->
-  lookup a (items (collect stk (run h gc_init))) = Some it /\
-  (forall e, In e (log (collect stk (run h gc_init))) -> ev_addr e = a -> In e (log (run h gc_init))).
-Proof. exact reachable_kept_partial. Qed.
-Print Assumptions C10_reachable_kept_partial.
-
-(* ---- defect 2: GCFlags.FINALIZE and GCFlags.ROOT are the same bit ---- *)
-(* full statement [no_abort_full]: a history that respects the allocator contract never trips an
-   assert of the collector.  False (witness: alloc with finalizer; realloc that moves): *)
-Theorem C10_no_abort_refuted : ~ no_abort_full.
-Proof. exact no_abort_refuted. Qed.
-Print Assumptions C10_no_abort_refuted.
-
-(* strongest true restriction of leaf_flag_sound: histories in which no realloc grows a block
-   smaller than a pointer (and not declared pointer-free) to pointer size or more *)
-Theorem C10_leaf_flag_sound_partial : forall h,
-  hist_leaf_safe h gc_init = true -> leaf_ok (run h gc_init).
-Proof. exact leaf_flag_sound_partial. Qed.
-Print Assumptions C10_leaf_flag_sound_partial.
-
-(* ... and along those histories a collection keeps every truly reachable block *)
-Theorem C10_reachable_kept_leafsafe : forall h stk a it,
-  hist_leaf_safe h gc_init = true ->
-  treach (items (run h gc_init)) (mark_seeds stk (run h gc_init)) a ->
-  lookup a (items (run h gc_init)) = Some it ->
-  lookup a (items (collect stk (run h gc_init))) = Some it /\
-  (forall e, In e (log (collect stk (run h gc_init))) -> ev_addr e = a -> In e (log (run h gc_init))).
-Proof. exact reachable_kept_leafsafe. Qed.
-Print Assumptions C10_reachable_kept_leafsafe.
-
 (* every finalizer registration (serial numbers [fid] are handed out once per registration) is
    called at most once over any history, however the calls arise (sweep, explicit dealloc, a
    finalizer deallocating or unregistering its own block) ... *)
@@ -151,16 +102,6 @@ Theorem C10_alloc_safe : forall h stk ptr size leaf extern fk tag a it,
 Proof. exact alloc_safe. Qed.
 Print Assumptions C10_alloc_safe.
 
-(* strongest true restriction of no_abort: a history that never moves (realloc to another
-   address) a block whose flags carry the ROOT bit - which today is also the FINALIZE bit - and
-   never explicitly deallocates a block whose finalizer itself unregisters/deallocates the block
-   never trips an assert of the collector and never exhausts the model's fuel; the only error it
-   can end in is a violated precondition of the history itself *)
-Theorem C10_no_abort_partial : forall h, hist_abort_safe h gc_init = true ->
-  err (run h gc_init) = None \/ err (run h gc_init) = Some ErrPrecond.
-Proof. exact no_abort_partial. Qed.
-Print Assumptions C10_no_abort_partial.
-
 (* what must not change: a store into a block, an explicit dealloc or an explicit unregister
    (with whatever finalizer they run) leave every OTHER registered block exactly as it was and
    log nothing about it *)
@@ -183,3 +124,40 @@ Theorem C10_realloc_grow_safe : forall h stk p n itp a it,
   lookup p (items (apply_op (ORealloc p p n stk) (run h gc_init))) = Some (resize_item n itp).
 Proof. exact realloc_grow_safe. Qed.
 Print Assumptions C10_realloc_grow_safe.
+
+(* ---- full-strength statements that were refuted before the repairs in /repo ---- *)
+(* (fe9bb7e FINALIZE no longer shares the ROOT bit; 9c3dee4 the scanner decides by the current
+   size, LEAF is never forced at registration) *)
+
+(* the LEAF flag is sound over every history: the collector treats a block as pointer-free only
+   if the user declared it so or it is smaller than a pointer *)
+Theorem C10_leaf_flag_sound : forall h a it,
+  In (a, it) (items (run h gc_init)) -> hasflag (iflags it) LEAF_BIT = true ->
+  idecl it = true \/ isize it < WORD_SIZE.
+Proof. exact leaf_flag_sound. Qed.
+Print Assumptions C10_leaf_flag_sound.
+
+(* over every history a collection keeps every block that is reachable in the sense of the
+   property (through every block that can hold a pointer and was not declared pointer-free):
+   same flags, size, finalizer, contents; neither freed nor finalized *)
+Theorem C10_reachable_kept : forall h stk a it,
+  treach (items (run h gc_init)) (mark_seeds stk (run h gc_init)) a ->
+  lookup a (items (run h gc_init)) = Some it ->
+  lookup a (items (collect stk (run h gc_init))) = Some it /\
+  (forall e, In e (log (collect stk (run h gc_init))) -> ev_addr e = a -> In e (log (run h gc_init))).
+Proof. exact reachable_kept. Qed.
+Print Assumptions C10_reachable_kept.
+
+(* a history that respects the allocator's contract (fresh addresses, registered pointers, no
+   explicit dealloc of a block whose finalizer releases the block itself) never trips an assert
+   of the collector and never exhausts the model's fuel *)
+Theorem C10_no_abort : forall h,
+  err (run h gc_init) = None \/ err (run h gc_init) = Some ErrPrecond.
+Proof. exact no_abort. Qed.
+Print Assumptions C10_no_abort.
+
+(* the tie facts the proofs above rest on, re-proved from the scraped source on every run *)
+Theorem C10_repaired_code_facts :
+  FINALIZE_BIT <> ROOT_BIT /\ AUTO_LEAF_ON_REGISTER = false /\ SCAN_SIZE_TEST = true /\ RESIZE_BEFORE_STEP = true.
+Proof. exact (conj FINALIZE_not_ROOT (conj auto_leaf_off (conj scan_size_test_on resize_before_step))). Qed.
+Print Assumptions C10_repaired_code_facts.
